@@ -33,7 +33,7 @@ ASSUMPTIONS = [
     'thread) calls stop(); if nothing is scripted there the loop would block for ever, which the harness reports',
     'handler code placed after a stop(code) call is not expected to run (stop(code) raises SystemExit by contract)',
 ]
-OUTSIDE = ['process mode (start(process=True)), signals', 'chains longer than the bounds']
+OUTSIDE = ['process mode (start(process=True)), signals', 'the exit code of a manager launched with start() (a thread has nobody to raise it to)', 'chains longer than the bounds']
 
 
 class step(Event):
@@ -87,7 +87,7 @@ class Controller:
 HOWS = ['stop', 'stop_code', 'sysexit_code', 'sysexit_none', 'kbdint']
 
 
-def make_harness(cycles, chain_max, after_options, tail_options, placements):
+def make_harness(cycles, chain_max, after_options, tail_options, placements, via_start=False):
     def harness(g):
         ctl = Controller()
         saved = (M.set_signal_handler, M.atexit)
@@ -127,6 +127,9 @@ def make_harness(cycles, chain_max, after_options, tail_options, placements):
             if p['after']:
                 fire(self, after(1), 'after', 1)
             do_stop(self, p['how'], p['code'])
+            if p.get('twice'):
+                # a second stop() of a manager that is already stopping has no effect
+                self.stop()
 
         class App(BaseComponent):
             @handler('started')
@@ -193,6 +196,9 @@ def make_harness(cycles, chain_max, after_options, tail_options, placements):
             cur['cycle'] = cyc
             place = g.pick('place%d' % cyc, placements)
             hows = HOWS if place != 'thread' else ['stop', 'stop_code']
+            if via_start:
+                # the loop runs in a thread of its own (start()): an exit code has nobody to be raised to
+                hows = [h for h in hows if h in ('stop', 'sysexit_none', 'kbdint')]
             how = g.pick('how%d' % cyc, hows)
             prog = {
                 'place': place, 'how': how,
@@ -203,10 +209,21 @@ def make_harness(cycles, chain_max, after_options, tail_options, placements):
             }
             if place == 'thread':
                 prog['after'] = 0
+            if via_start and how == 'stop':
+                prog['twice'] = g.flag('twice%d' % cyc)
             cur['prog'] = prog
             outcome = ('returned', None)
             try:
-                r = app.run()
+                if via_start:
+                    t, _ = app.start()
+                    # start() hands back None when the loop has already ended by the time it returns
+                    if t is not None:
+                        t.join(120)
+                    if t is not None and t.is_alive():
+                        ctl.hang = True
+                    r = None
+                else:
+                    r = app.run()
                 outcome = ('returned', r)
             except SystemExit as e:
                 outcome = ('SystemExit', e.code)
@@ -280,11 +297,17 @@ def parts(tier):
         return [Part('run-stop', make_harness(1, 3, [0, 1, 2, 6], [0, 2, 5], P),
                      bounds={'cycles': 1, 'chain': '<=3', 'after_stop_chain': [0, 1, 2, 6], 'stopped_tail_chain': [0, 2, 5], 'placements': P, 'how': HOWS, 'exit_code': 'z3 Int (unconstrained)'},
                      encoded=ENC + [M.Manager.processTask], budget_s=80),
+                Part('started-in-thread', make_harness(1, 2, [0, 2], [0, 2], ['started', 'mid', 'gen', 'thread'], via_start=True),
+                     bounds={'cycles': 1, 'launched_with': 'start() (loop in its own thread)', 'chain': '<=2', 'after_stop_chain': [0, 2], 'stopped_tail_chain': [0, 2],
+                             'how': ['stop', 'stop twice', 'SystemExit()', 'KeyboardInterrupt']},
+                     encoded=ENC + [M.Manager.start], budget_s=80),
                 Part('two-cycles', make_harness(2, 1, [0, 6], [0, 2], ['started', 'mid', 'thread']),
                      bounds={'cycles': 2, 'chain': '<=1', 'after_stop_chain': [0, 6], 'stopped_tail_chain': [0, 2], 'placements': ['started', 'mid', 'thread']},
                      encoded=ENC, budget_s=80)]
     return [Part('run-stop', make_harness(1, 3, [0, 1, 2, 4, 6], [0, 1, 2, 5], P), bounds={'cycles': 1, 'chain': '<=3', 'after_stop_chain': [0, 1, 2, 4, 6], 'stopped_tail_chain': [0, 1, 2, 5]},
                  encoded=ENC + [M.Manager.processTask], budget_s=900),
+            Part('started-in-thread', make_harness(2, 2, [0, 2, 6], [0, 2], P, via_start=True), bounds={'cycles': 2, 'launched_with': 'start()', 'chain': '<=2'},
+                 encoded=ENC + [M.Manager.start, M.Manager.processTask], budget_s=900),
             Part('two-cycles', make_harness(2, 2, [0, 2, 6], [0, 2], P), bounds={'cycles': 2, 'chain': '<=2'}, encoded=ENC + [M.Manager.processTask], budget_s=1800)]
 
 
